@@ -5,7 +5,7 @@ PROPS["C20"] = dict(
     rule="two case kinds. tree case = (directories nested to depth <= 4, 0..25 regular files plus up to 6 entries with RELATED names (see below); file and directory names are byte strings: ASCII letters/digits, "
          "spaces, inner and leading dots, unicode, up to 200 bytes, and arbitrary bytes 0x01..0xFF (invalid UTF-8: Latin-1, lone continuation bytes, "
          "truncated and overlong sequences, 0xFE/0xFF; control characters; backslash; a literal U+FFFD; siblings that differ only in such bytes), "
-         "never '.', '..', NUL or '/'; related names: in half of the trees 1..6 extra entries are named after an entry the tree already has and put into the same "
+         "never '.', '..', NUL or '/'; one directory in eight is named like a path component of the arguments of the two calls ('src', 'dest', 'out.zip', 'outside': the base names of the source directory, the destination, the archive and the directory that holds outside names); related names: in half of the trees 1..6 extra entries are named after an entry the tree already has and put into the same "
          "directory - a file next to a file, a file next to a directory (named like the directory plus an affix), a directory next to a file - the name being the other "
          "name with a prefix and/or a suffix added (the usual marks of helper files: '.', '~', '#', '_', '.#', '._', 'tmp', ... / '.tmp', '.bak', '.part', '.swp', '~', "
          "'.lock', '.orig', trailing dots and spaces, ... or free strings over such characters), with leading marks, the last extension or trailing dots/spaces "
@@ -33,18 +33,32 @@ PROPS["C20"] = dict(
          "and the round trip must reproduce it like any other selected file (relative path and content; the mode of the extracted file is not judged); when the open fails the file is an unreadable file, stays excluded and gets 0644 back (class tree_file_mode_reverted_process_cannot_read). "
          "rapid: one file in four draws a mode; unit modes: every mode on a file in the source directory and on a file in a sub-directory x filters nil / suffix / keep-only directory / exclude directory x recursive flag x one round / two rounds with every file rewritten in between "
          "(classes tree_file_mode:<mode>, tree_selected_file_without_any_read_bit). "
+         "ENTRIES RELATED THROUGH THE FILE SYSTEM (Links, created after the files, at most 4 per random tree): a source tree is not a set of independent files. "
+         "hard: a further NAME of the inode of an earlier regular file (os.Link) - in the directory of the first name, in another directory (a name in the source directory for a file deep in the tree and the other way round), "
+         "a third name made from the second, of an empty file, of a file with a mode, or OUTSIDE the tree in {BASE}/outside (link count above one, one name in the tree); every name in the tree is a regular file of the tree and, "
+         "when filter and recursive flag select it, must come back under its own relative path with the content of the inode - the names of one inode may be both selected, or one selected and the other rejected by a suffix/directory filter "
+         "or cut by the non-recursive mode. copy: a new file with the bytes of an earlier one, an inode of its own (control). symfile/symdir: a symbolic link to a regular file of the tree (target spelled relative or absolute), to a file "
+         "in {BASE}/outside, to a directory of the tree or to the source directory itself; never dangling (an edit that deletes the target name removes the links to it first). Symbolic links are not regular files and the statement "
+         "says nothing about them: whatever the destination holds at the relative path of one is neither required nor counted as an extra file (the unchanged ZipFolder stores the bytes it can read through the link); the regular files "
+         "of such a tree are judged as always, and a file that appeared UNDER a linked directory would be an extra file. Between rounds the content edits write IN PLACE (every name of the inode shows the new content, the model follows), 'delete' removes one name "
+         "(the inode stays under the others), and the new edit 'replace' writes the new content aside and renames it over the name (a new inode under the old name; other names keep the old content). "
+         "rapid: one tree in three draws 1..4 such entries (5/9 hard - one in six outside -, 1/9 copy, 2/9 symfile, 1/9 symdir; names of their own or short ones with usual extensions, offered to the suffix filter as well); "
+         "unit links: one tree with all of these shapes (two and three names, same and other directory, empty, 70000 bytes read-only, outside, copy, five symbolic links) x filters nil / suffix .dat / suffix .txt / keep-only directory / exclude directory x recursive flag x "
+         "one round / three rounds (edits through the second name, first name deleted, target of a symbolic link deleted, a name replaced, a sub-folder of the destination removed) "
+         "(classes tree_hardlink_*, tree_copy_*, tree_symlink_*, tree_later_round_file_replaced_by_rename; tree_link_unavailable where the file system refuses os.Link/os.Symlink: the entry is dropped). "
          "Excluded as outside the documented domain: relative or unclean source paths, "
-         "double slashes, symlinks, devices, files that the zipping process cannot open for reading, modes on directories and on files of the destination, the archive placed inside the source dir. "
+         "double slashes, dangling symbolic links (ZipFolder cannot read through them), devices, files that the zipping process cannot open for reading, modes on directories and on files of the destination, the archive placed inside the source dir. "
          "archive case = list of zip entries (name, kind file/dir/symlink mode bits, payload, stored or deflated) written with archive/zip, "
          "optionally with 1..3 corrupted bytes; names from '..', '.', empty and plain segments joined by '/' or '\\\\', up to 8 leading '../', "
          "absolute prefixes ('/', '//', the sandbox root, the destination itself), trailing slash, duplicates and file/dir clashes; the "
          "exhaustive unit runs every ordered list of length <= 2 (thorough: <= 3) over a systematic alphabet of 65 hostile entries. non-trivial = tree with >= 1 file in a sub-directory and >= 1 empty or filtered-out file, or an "
          "extraction over a longer file at the path of a selected one, or two selected sibling files one named like the other wrapped in a prefix and a suffix, or a later "
-         "round that must put a selected file into a folder removed from the destination in between, or a selected file that goes over a destination file of equal length and CRC-32 but other content, or a tree with more selected files than descriptors available during the calls, or archive with >= 1 entry "
+         "round that must put a selected file into a folder removed from the destination in between, or a selected file that goes over a destination file of equal length and CRC-32 but other content, or a tree with more selected files than descriptors available during the calls, or a tree with two selected names of one inode, or archive with >= 1 entry "
          "whose cleaned joined name leaves the destination; distinct = FNV hash of the JSON form of the case",
     assumptions=["oracle (a): map relPath->content of the regular files under the destination == the source's regular files for which "
                  "filter(clean source dir + '/' + relPath) is true (nil filter = all) and, when recursive is false, that sit directly in the "
-                 "source dir; directories (empty or not) are not compared; both calls must return nil. When the destination held regular files "
+                 "source dir (a regular file is a name whose inode is a regular file: every hard-linked name counts on its own); directories (empty or not) are not compared; "
+                 "relative paths at which the source holds or held a symbolic link are left out of the comparison on both sides; both calls must return nil. When the destination held regular files "
                  "before the extraction (pre-populated, or left by an earlier round and not removed since): every selected file must have exactly the source content afterwards; "
                  "'nothing else' is judged on what the extraction adds - a file that was there before and is not selected is not an extra file, "
                  "but must be byte-identical afterwards; pre-existing directories where a file must go (or files where a directory must go) are "
@@ -63,6 +77,7 @@ PROPS["C20"] = dict(
     units=[
         dict(name="tree", run="^TestC20TreeRapid$", checks=(400, 1500), shards=(4, 16), timeout=(200, 1200), shrinktime=("15s", "40s")),
         dict(name="modes", run="^TestC20TreeModes$", shards=(2, 4), timeout=(200, 1200)),
+        dict(name="links", run="^TestC20TreeLinks$", shards=(2, 4), timeout=(200, 1200)),
         dict(name="manyfiles", run="^TestC20TreeManyFiles$", shards=(3, 6), timeout=(200, 1200)),
         dict(name="archive", run="^TestC20ArchiveRapid$", checks=(1500, 8000), shards=(4, 16), timeout=(200, 1200), shrinktime=("15s", "40s")),
         dict(name="hostile", run="^TestC20ArchiveExhaustive$", shards=(8, 16), timeout=(200, 1200)),
@@ -71,7 +86,7 @@ PROPS["C20"] = dict(
 )
 
 LEVEL_TEXT["C20"] = (
-    "Generated-input search with exact oracles: thousands of random directory trees (odd names, sibling names derived from one another by helper-file prefixes and suffixes, empty, binary and large files, every "
+    "Generated-input search with exact oracles: thousands of random directory trees (odd names, sibling names derived from one another by helper-file prefixes and suffixes, hard-linked names, copies and symbolic links, empty, binary and large files, every "
     "filter kind, both values of the recursive flag, both spellings of the source dir) are zipped, unzipped and compared file by file "
     "with the selected part of the source, in a third of the cases over several rounds into one destination path with parts of the destination removed in between; every ordered combination of a systematic set of hostile zip entries up to a length bound "
     "plus thousands of random hostile archives are extracted eight levels deep inside a sandbox whose complete state outside the "
